@@ -8,7 +8,7 @@ pub fn main(args: &[String]) -> i32 {
             for (i, l) in layouts().iter().enumerate() {
                 let ff = FixedFile {
                     layout: i,
-                    recs: (0..4).map(|k| FRec { sec: 1_600_000_000 + (k as i64 % 3), usec: 5 + k as i64, null: 0, pid: 100 + k, typ: 6, serial: k as u32, full: 0, stale: 0 }).collect(),
+                    recs: (0..4).map(|k| FRec { sec: 1_600_000_000 + (k as i64 % 3), usec: 5 + k as i64, null: 0, pid: 100 + k, typ: 6, serial: k as u32, full: 0, stale: 0, addr: [0; 4] }).collect(),
                 };
                 let d = dir.join(l.id);
                 std::fs::create_dir_all(&d).unwrap();
